@@ -19,7 +19,7 @@ import falcon.util.mediatypes as MT  # noqa: E402
 from falcon.media.handlers import Handlers  # noqa: E402
 
 from engine.envmodels import make_environ  # noqa: E402
-from engine.rt import fail  # noqa: E402
+from engine.rt import fail, notrace, pick, pickb  # noqa: E402
 
 PROPERTY = 'C11'
 UNITS = ['falcon.util.mediatypes._MediaRange.match_score', 'mediatypes.quality', 'mediatypes.best_match',
@@ -30,7 +30,9 @@ STUBS = [
     'q values are symbolic INTEGERS standing for q*1000 in obligations A-C (the code only orders and returns q; CrossHair never '
     'confirms symbolic floats)',
     'functools.lru_cache layers of quality/_parse_media_type/_parse_media_ranges are bypassed via __wrapped__ in A-E (a symbolic str '
-    'cache key is realized); the Handlers harness keeps its LRU cache: that cache is the subject',
+    'cache key is realized); the Handlers harness keeps its LRU cache, which is the subject: CrossHair replaces lru_cache calls made from '
+    'traced code by the wrapped function, so handlers_case realizes its menu indices through the solver (pick) and calls _resolve outside '
+    'tracing, on the real cache',
     'B: _parse_media_ranges/_parse_media_type replaced by fakes returning symbolic score tuples; C: quality replaced by a symbolic table',
     'parameter NAMES and handler keys come from menus (dict/frozenset keys are realized); parameter values and type names are symbolic',
     'E: symbolic header text over the alphabet { ; = " \\ space a q / * , . 0 1 } (names become dict keys)',
@@ -353,7 +355,7 @@ HKEYS = ['application/json', 'application/x', 'a/*']
 RESOLVE_TYPES = [None, '*/*', 'application/json', 'application/json; charset=utf-8', 'application/x', 'a/b', 'a/b+json',
                  'text/plain', 'application/*', 'application/x; v=1']
 H_OPS = {0: 'set', 1: 'del', 2: 'update', 3: 'pop', 4: 'clear', 5: 'setdefault', 6: 'copy-mutate-copy', 7: 'copy-mutate-orig',
-         8: 'resolve', 9: 'update-from-failing-iterable'}
+         8: 'resolve', 9: 'update-from-failing-iterable', 10: 'ior', 11: 'copy.copy-mutate-both'}
 
 
 def _ref_resolve(mirror, media_type, default):
@@ -373,8 +375,19 @@ def _ref_resolve(mirror, media_type, default):
     return mirror[best] if best is not None else None
 
 
+def _resolve_cached(h, t, default, rnf):
+    """Handlers._resolve with ITS lru cache in effect: CrossHair replaces every functools.lru_cache call made from traced code
+    by a call of the wrapped function (cache skipped), which would hide exactly the stale-cache behaviour under test.  All
+    arguments are concrete here (solver-picked menu indices), so the call runs outside tracing, on the real C wrapper."""
+    with notrace():
+        return h._resolve(t, default, rnf)
+
+
 def handlers_case(ops, keys, rts, raise_not_found):
     """ops: op codes; keys[i]: key index for op i; rts[i]: resolve-type index used by op 8 and by the check after each op."""
+    keys = [pick(k, 0, len(HKEYS) - 1) for k in keys]
+    rts = [pick(r, 0, len(RESOLVE_TYPES) - 1) for r in rts]
+    raise_not_found = pickb(raise_not_found)
     h = Handlers({HKEYS[0]: _H('j0')})
     mirror = {HKEYS[0]: h.data[HKEYS[0]]}
     active_h, active_m = h, mirror
@@ -412,6 +425,24 @@ def handlers_case(ops, keys, rts, raise_not_found):
             except _IterFail:
                 pass
             active_m[k] = new
+        elif op == 10:
+            active_h |= {k: new}
+            active_m[k] = new
+        elif op == 11:
+            import copy as _copy
+            c = _copy.copy(active_h)
+            cm = dict(active_m)
+            c[k] = new              # the copy resolves by its own mapping ...
+            cm[k] = new
+            newer = _H('o%d' % n)
+            active_h[HKEYS[0]] = newer   # ... and does not follow the original
+            active_m[HKEYS[0]] = newer
+            t = RESOLVE_TYPES[rts[i]]
+            got = _resolve_cached(c, t, HKEYS[0], False)[0]
+            exp = _ref_resolve(cm, t, HKEYS[0])
+            if got is not exp:
+                return fail(lambda: 'copy.copy(handlers) resolved %r to %r; its own mapping %r designates %r' % (
+                    t, getattr(got, 'tag', type(got).__name__), {kk: vv.tag for kk, vv in cm.items()}, getattr(exp, 'tag', None)))
         elif op == 6:
             c = active_h.copy()
             c[k] = new          # mutating the copy must not affect the original
@@ -422,7 +453,7 @@ def handlers_case(ops, keys, rts, raise_not_found):
             active_m[k] = new
             # check the copy right away against its own mirror
             t = RESOLVE_TYPES[rts[i]]
-            got = c._resolve(t, HKEYS[0], False)[0]
+            got = _resolve_cached(c, t, HKEYS[0], False)[0]
             exp = _ref_resolve(cm, t, HKEYS[0])
             if got is not exp:
                 return fail(lambda: 'copy resolved %r to %r after the original changed; its own mapping designates %r' % (
@@ -431,7 +462,7 @@ def handlers_case(ops, keys, rts, raise_not_found):
         t = RESOLVE_TYPES[rts[i]]
         exp = _ref_resolve(active_m, t, HKEYS[0])
         try:
-            got = active_h._resolve(t, HKEYS[0], raise_not_found)[0]
+            got = _resolve_cached(active_h, t, HKEYS[0], raise_not_found)[0]
         except ferrors.HTTPUnsupportedMediaType:
             if exp is None and raise_not_found:
                 continue
@@ -500,9 +531,9 @@ def partitions(tier, seed):
                            '%s on every string of %d characters over the alphabet %r: documented errors only%s' % (
                                nm, L, ALPHA, '; equals the char-level reference when unquoted' if which == 0 else '')))
     # handlers: op kinds are the shape, keys / resolve types / raise flag symbolic
-    hist2 = [(8, 0), (8, 2), (0, 0), (8, 1), (8, 3), (0, 1), (8, 4), (8, 5), (8, 7), (8, 6), (2, 2), (5, 0), (1, 0), (3, 5), (4, 7), (1, 7), (0, 7), (8, 9), (9, 0)]
+    hist2 = [(8, 0), (8, 2), (0, 0), (8, 1), (8, 3), (0, 1), (8, 4), (8, 5), (8, 7), (8, 6), (2, 2), (5, 0), (1, 0), (3, 5), (4, 7), (1, 7), (0, 7), (8, 9), (9, 0), (8, 10), (10, 3), (8, 11), (4, 11)]
     hist3 = [(8, 0, 8), (0, 8, 2), (8, 7, 0), (8, 1, 0), (8, 6, 8), (8, 4, 0), (0, 0, 1), (8, 2, 3)]
-    hists = hist2 + hist3 if q else hist2 + hist3 + [(a, b, c) for a in (8, 0) for b in range(10) for c in range(10) if b != 8 or c != 8]
+    hists = hist2 + hist3 if q else hist2 + hist3 + [(a, b, c) for a in (8, 0) for b in range(12) for c in range(12) if b != 8 or c != 8]
     seen = set()
     for ops in hists:
         if ops in seen:
